@@ -24,8 +24,8 @@ CLAIMED = {
    note="Kernel only. Trusted: rustc MIR, mirsym models (IndexMap as association list, streams from a harness event log), z3. Outside: replace_all_events I/O, password/cipher changes through LocalAccount (and the claim that old keys stop working), both storage backends; encryption is opaque.",
    design="DESIGN.md section 3, C12"),
  "C14": dict(
-   text="Bounded model checking of the binary codecs: for every Encodable/Decodable pair of sos-core and sos-vault the real decoder and encoder run from the MIR of the current tree as decode(b) -> v1, encode(v1) -> e1, decode(e1) -> v2 over symbolic bytes b, so v1 ranges over every value within the stated bounds (free-length fields <= 16 bytes, <= 2 collection elements; smaller for composite types in the quick tier). z3 decides per path that encode succeeds, decode(e1) succeeds and consumes exactly the bytes written, v2 == v1 field by field, and that encode consults neither clock nor RNG; counterexamples are replayed natively (decode/encode/decode/encode must be stable).",
-   note="Trusted: rustc MIR, mirsym with its rope writer/reader and std models, z3. Assumed: external text formats (url, urn, age, pem, vcard, JSON bodies) parse/print as inverses. Outside: prost wire conversions and the database row mapping (not built), values larger than the bounds, SecretRow and Vault containers in the quick tier (thorough only).",
+   text="Bounded model checking of the binary codecs: for every Encodable/Decodable pair of sos-core and sos-vault the real decoder and encoder run from the MIR of the current tree as decode(b) -> v1, encode(v1) -> e1, decode(e1) -> v2 over symbolic bytes b, so v1 ranges over every value within the stated bounds (free-length fields <= 16 bytes, <= 2 collection elements; smaller for composite types in the quick tier). z3 decides per path that encode succeeds, decode(e1) succeeds and consumes exactly the bytes written, v2 == v1 field by field, and that encode consults neither clock nor RNG; counterexamples are replayed natively (decode/encode/decode/encode must be stable). Wire part: for the 30 compiled protobuf bindings of sos-protocol the real TryFrom<WireT> / From<T> conversions run as w -> v1 -> w1 -> v2 over a symbolic prost message built from the generated definitions (canonical fully populated message plus every combination of <= 2 (3) structural deviations: absent optional, other oneof variant, 0/2 repeated elements, free byte-string length); z3 decides that the second conversion succeeds and v2 == v1; counterexamples are encoded to protobuf bytes and replayed through the public WireEncodeDecode.",
+   note="Trusted: rustc MIR, mirsym with its rope writer/reader and std models, z3. Assumed: external text formats (url, urn, age, pem, vcard, JSON bodies) parse/print as inverses. prost's byte encoder/decoder are external and assumed inverse. Outside: the database row mapping, values larger than the bounds, wire messages further than the variation budget from the canonical message or lacking a field the receiver unwraps, SecretRow and Vault containers in the quick tier (thorough only).",
    design="DESIGN.md section 3, C14"),
  "C20": dict(
    text="Bounded model checking of the index bookkeeping: SearchIndex::{prepare,commit,add,update,remove,remove_vault} and DocumentCount::{add,remove} run from the MIR of the current tree on every history of <= 2 (quick) / 3 (thorough) operations over two folders x two secret ids from the empty index, with symbolic kind / tag / favourite attributes and an optional archive folder. On every feasible path documents() holds exactly one entry per live (folder,id), the per-folder, per-kind, per-tag and favourites counters equal a recount of documents(), and the keys given to the text index equal the document keys; counterexamples are replayed on a real SearchIndex.",
